@@ -19,11 +19,10 @@ its default.  Finding key = "<kind of the blamed node>/<its remaining non-defaul
 "~<kind>.<option>" for options remaining below it), e.g. "table/leading"; an exception escaping
 render is "crash/<Type>/<file>:<function>".
 
-Measured (machine shared with ~15 other agents, load average 80-160, VF_WORKERS=4, so CPU time of the
-shards is the meaningful figure):
-    quick     59.6 k trees, 666 581 renders, 138 outcome signatures (84 non-trivial), ~650-870 CPU-s
-              (= 40-55 s wall on 16 cores at that per-render cost; ~1.2 ms/render under load)
-    thorough  462 k trees, 4 430 425 renders, 155 signatures (87 non-trivial), ~5 500 CPU-s (~6 min on 16 cores)
+Measured (default 16 workers, machine shared with other agents, load average 20-60; CPU time is the figure):
+    quick     59.6 k trees, 554 230 renders, 131 outcome signatures (78 non-trivial), ~590-650 CPU-s
+              (37-41 s on 16 free cores; 57-76 s wall observed under load)
+    thorough  493 k trees, 4 871 369 renders, 147 signatures (80 non-trivial), ~6 100 CPU-s (688 s wall under load)
 """
 import os
 import traceback
